@@ -19,6 +19,7 @@ import vmd_common as V
 KEY_UNVERIFIED = 'c17:transparency:unverified-module:code_length'
 KEY_TSAN_CRC = 'c17:tsan:data-race:crc32_init'
 KEY_EXIT = 'c17:transparency:main-result-exit-status'
+KEY_TSAN_FFI = 'c17:tsan:data-race:ffi_loader-initialized'
 
 
 def exit_only(obs, exp):
@@ -389,9 +390,7 @@ class SilentPhase(threading.Thread):
                 obs, t_o = res[(it['T'], how)]
                 row[how.replace(' ', '_') + '_s'] = round(t_o, 1)
                 exp = st
-                if how == 'daemon wrapper' and V.client_anomaly(obs) is None and obs[0] == exp[0] and obs[1] == exp[1]:
-                    pass
-                if obs != exp and not (how == 'daemon wrapper' and obs[:2] == exp[:2] and exp[2] == obs[2]):
+                if obs != exp:
                     self.fails.append(('c17:silent:%ds:%s' % (it['T'], how.replace(' ', '-')),
                         'a program that prints, computes silently for %.1f s and prints again is not served like standalone through %s: exit %s vs %s, stdout %r vs %r, stderr %r vs %r (client ended after %.1f s)' % (
                             t_st, how, obs[0], exp[0], obs[1][:60], exp[1][:60], obs[2][:80], exp[2][:80], t_o),
@@ -531,6 +530,10 @@ def report_tsan(ck, reps):
             ck.extra.setdefault('tsan_hook_artefacts', [])
             if r['globals'] not in ck.extra['tsan_hook_artefacts']:
                 ck.extra['tsan_hook_artefacts'].append(r['globals'])
+            continue
+        if any(f.startswith('ffi_loader') for f in r['funcs']) and ('vm_ffi_call' in r['funcs'] or 'vm_ffi_init' in r['funcs']):
+            ck.fail(KEY_TSAN_FFI, 'ThreadSanitizer: %s on the FFI loader state (runtime/ffi_loader.c) between sessions that fell back to in-process FFI' % r['kind'],
+                    dict(case='tsan', report=r['text']))
             continue
         if 'crc32' in ' '.join(r['funcs'] + r['globals']) or 'nvm_crc32' in r['text']:
             ck.fail(KEY_TSAN_CRC, 'ThreadSanitizer: %s in crc32_init/nvm_crc32 (lazy table initialisation without synchronisation)' % r['kind'],
